@@ -54,6 +54,47 @@ static int benum_get (const BEnum * E, char *cs, char *rs)
 	return nb == E->m;
 }
 
+
+/* used by family hist (opt verd=1): the verdict functions on the problem's CURRENT basis, in the middle of an edit/solve history.
+ * The calls are part of the history (they build and may keep internal state); the answers are compared with exact
+ * elimination on the model as it is now. */
+void c12_check_current_basis (mpq_QSprob p, const RefLP * L, const char *ctx)
+{
+	if (L->n == 0 || L->m == 0 || L->n + L->m > 12 || !ref_wellformed (L)) return;
+	char cs[16] = { 0 }, rs[16] = { 0 };
+	if (mpq_QSget_basis_array (p, cs, rs)) { STAT ("verd_no_basis"); return; }
+	SF *S = sf_from_ref (L);
+	BasisSol *B = obasis_solve (S, cs, rs);
+	if (!B->valid || B->singular) { STAT ("verd_basis_invalid_or_singular"); obasis_free (B, S); sf_free (S); return; }
+	STAT ("verd_states_checked");
+	QSbasis qb; qb.nstruct = L->n; qb.nrows = L->m; qb.cstat = cs; qb.rstat = rs;
+	mpq_t dob, neg; mpq_init (dob); mpq_init (neg);
+	char res = 9;
+	int rv = QSexact_basis_optimalstatus (p, &qb, &res, 1);
+	if (rv) viol ("C12", "hist-optimalstatus-error", "QSexact_basis_optimalstatus returned %d on the problem's own basis cstat=%.*s rstat=%.*s [history: %s]", rv, L->n, cs, L->m, rs, ctx);
+	else if ((res == 1) != (B->pfeas && B->dfeas))
+		viol ("C12", res ? "hist-optimalstatus-false-yes" : "hist-optimalstatus-false-no", "QSexact_basis_optimalstatus says %d but the exact basic solution of the current LP is primal %s, dual %s: basis cstat=%.*s rstat=%.*s [history: %s]",
+			res, B->pfeas ? "feasible" : "infeasible", B->dfeas ? "feasible" : "infeasible", L->n, cs, L->m, rs, ctx);
+	for (int via = 0; via < 2; via++) {
+		res = 9; mpq_set_si (dob, -12345, 1);
+		rv = via ? QSexact_verify (p, &qb, 0, NULL, NULL, &res, &dob, 1) : QSexact_basis_dualstatus (p, &qb, &res, &dob, 1);
+		const char *fn = via ? "QSexact_verify(prestep=0)" : "QSexact_basis_dualstatus";
+		if (rv) viol ("C12", "hist-dualstatus-error", "%s returned %d on the problem's own basis cstat=%.*s rstat=%.*s [history: %s]", fn, rv, L->n, cs, L->m, rs, ctx);
+		else if ((res == 1) != B->dfeas)
+			viol ("C12", res ? "hist-dualstatus-false-yes" : "hist-dualstatus-false-no", "%s says %d but the basis is dual %s for the current LP: cstat=%.*s rstat=%.*s [history: %s]", fn, res, B->dfeas ? "feasible" : "infeasible", L->n, cs, L->m, rs, ctx);
+		else if (res == 1) {
+			mpq_neg (neg, B->dobj);
+			if (!mpq_equal (dob, B->dobj) && !(L->objsense == REF_MAX && mpq_equal (dob, neg))) {
+				char *a = q_str (dob), *b2 = q_str (B->dobj);
+				viol ("C12", "hist-dualstatus-dobjval", "%s reports dual bound %s but the exact dual objective of the basis for the current LP is %s: cstat=%.*s rstat=%.*s [history: %s]", fn, a, b2, L->n, cs, L->m, rs, ctx);
+				free (a); free (b2);
+			}
+		}
+	}
+	mpq_clear (dob); mpq_clear (neg);
+	obasis_free (B, S); sf_free (S);
+}
+
 static void basis_run (long item)
 {
 	char label[128] = "", why[500], desc[5000];
